@@ -9,6 +9,11 @@ var FieldsPerFlush = 50
 var RegistrySize = 256 * 20
 var RegistryGrowStep = 32
 var CallStackSize = 256
+
+// MaxNestedResumes bounds how deeply coroutine resumes may nest: every coroutine that resumes
+// another one nests Go calls (as C calls in Lua, where LUAI_MAXCCALLS is 200), and the Go stack
+// overflow an unbounded nesting ends in is fatal for the whole process.
+var MaxNestedResumes = 200
 var MaxTableGetLoop = 100
 var MaxArrayIndex = 67108864
 
